@@ -1,5 +1,6 @@
 import XModel.TableSel
 import XModel.TableSpan
+import XModel.TableTuple
 /-!
 # C08 — row selection follows the documented selector semantics, in table order
 Model: `XModel/Table.lean` (`getRowIndices`, `getRegexpIndices`, `indicesOf`, `maskOf`, `rowsOf`).
@@ -213,5 +214,85 @@ theorem C08_name_span_rows (t : Tbl) (h : Coherent t) (hr : Rect t) (m : String 
     (hres : spanResolve t a b c = .ok (some (ia : Int), some (ib : Int))) :
     ∃ r, (rowsOf t m (.slice a b c)).2 = .ok r ∧ r.indexCol = (t.indexCol.drop ia).take (ib + 1 - ia) :=
   nameSpan_rows_indexCol t h hr m a b c hs ia ib hres
+
+/-! ### wrappers of the model-level results (statements as printed by `#check`) -/
+section wrapped
+
+/-- **rows[s1, s2] = rows[s1].rows[s2]** on the API level (`rowsOf` with a `.tuple` selector vs `rowsOf` applied twice): the same table — every field — including which error wins; for coherent tables whose data entries are at least as long as the table (`DataCovers`, needed in the model: `junkExample`) -/
+theorem C08_compose_selectors :
+    ∀ (t : TableM.Tbl),
+      TableM.Coherent t →
+        TableM.DataCovers t →
+          ∀ (m : String → TableM.Match) (s1 s2 : TableM.Sel),
+            TableM.isTuple s1 = false →
+              TableM.isTuple s2 = false →
+                (TableM.rowsOf t m (TableM.Sel.tuple [s1, s2])).snd =
+                  Except.bind (TableM.rowsOf t m s1).snd fun v => (TableM.rowsOf v m s2).snd :=
+  @TableM.rowsOf_pair
+
+/-- tuples of any length -/
+theorem C08_compose_selectors_any_length :
+    ∀ (t : TableM.Tbl),
+      TableM.Coherent t →
+        TableM.DataCovers t →
+          ∀ (m : String → TableM.Match) (s : TableM.Sel) (rest : List TableM.Sel),
+            (∀ (x : TableM.Sel), x ∈ s :: rest → TableM.isTuple x = false) →
+              (TableM.rowsOf t m (TableM.Sel.tuple (s :: rest))).snd = TableM.rowsChain m t (s :: rest) :=
+  @TableM.rowsOf_tuple_chain
+
+/-- `rows.mask[sel]` marks exactly the positions `rows.indices[sel]` lists (negative ones wrapped as Python does) -/
+theorem C08_mask_is_indices :
+    ∀ (t : TableM.Tbl),
+      TableM.Coherent t →
+        ∀ (m : String → TableM.Match) (s : TableM.Sel) (l : List Int),
+          (TableM.indicesOf t m s).snd = Except.ok l →
+            (∀ (j : Int), j ∈ l → TableM.normPos (TableM.Tbl.nrows t) j ≠ none) →
+              ∃ mask,
+                (TableM.maskOf t m s).snd = Except.ok mask ∧
+                  List.length mask = TableM.Tbl.nrows t ∧
+                    ∀ (i : Nat), mask[i]? = some true ↔ ∃ j, j ∈ l ∧ TableM.normPos (TableM.Tbl.nrows t) j = some i :=
+  @TableM.mask_iff_indices
+
+/-- `rows[sel]` holds exactly the rows `rows.indices[sel]` lists, in that order: index column and every cell -/
+theorem C08_rows_are_indices :
+    ∀ (t : TableM.Tbl),
+      TableM.Coherent t →
+        TableM.Rect t →
+          ∀ (m : String → TableM.Match) (s : TableM.Sel) (l : List Int),
+            (TableM.indicesOf t m s).snd = Except.ok l →
+              (∀ (j : Int), j ∈ l → TableM.normPos (TableM.Tbl.nrows t) j ≠ none) →
+                ∃ r,
+                  (TableM.rowsOf t m s).snd = Except.ok r ∧
+                    TableM.Tbl.nrows r = List.length l ∧
+                      List.map some (TableM.Tbl.indexCol r) =
+                          List.map
+                            (fun j =>
+                              Option.bind (TableM.normPos (TableM.Tbl.nrows t) j) fun k => (TableM.Tbl.indexCol t)[k]?)
+                            l ∧
+                        ∀ (c : String) (v : List TableM.Cell),
+                          TableM.Tbl.col t c = some v →
+                            TableM.Tbl.nrows t ≤ List.length v →
+                              ∃ v',
+                                TableM.Tbl.col r c = some v' ∧
+                                  List.map some v' =
+                                    List.map (fun j => Option.bind (TableM.normPos (TableM.Tbl.nrows t) j) fun k => v[k]?) l :=
+  @TableM.rows_eq_indices
+
+/-- the three views fail together -/
+theorem C08_views_fail_together :
+    ∀ (t : TableM.Tbl),
+      TableM.Coherent t →
+        ∀ (m : String → TableM.Match) (s : TableM.Sel),
+          (∀ (e : TableM.TErr),
+              (TableM.indicesOf t m s).snd = Except.error e →
+                (TableM.maskOf t m s).snd = Except.error e ∧ (TableM.rowsOf t m s).snd = Except.error e) ∧
+            ∀ (l : List Int),
+              (TableM.indicesOf t m s).snd = Except.ok l →
+                (∃ j, j ∈ l ∧ TableM.normPos (TableM.Tbl.nrows t) j = none) →
+                  (TableM.maskOf t m s).snd = Except.error TableM.TErr.indexError ∧
+                    (TableM.rowsOf t m s).snd = Except.error TableM.TErr.indexError :=
+  @TableM.views_fail_together
+
+end wrapped
 
 end Properties.C08
